@@ -156,6 +156,10 @@ func (s *vStore) CreateProcessing(_ context.Context, p *types.Processing, count 
 func (s *vStore) DeleteProcessing(_ context.Context, p *types.Processing) error {
 	defer vGuard()()
 	if s.w.fault("store.DeleteProcessing") {
+		if s.w.delRefused == nil {
+			s.w.delRefused = map[string]bool{}
+		}
+		s.w.delRefused[p.Nodename] = true
 		return vErrInjected
 	}
 	delete(s.w.processing, p.Nodename)
@@ -295,8 +299,9 @@ func VerifCreateOp(arg string) {
 		}
 		vAssert("C11/create-places-within-reported-capacity", perNode[n] <= vConcrete(w.slots[n]))
 	}
-	if w.site != "store.DeleteProcessing" {
-		vAssert("C12/no-in-progress-marker-remains", len(w.processing) == 0)
+	for n := range w.processing {
+		// (only the marker whose own deletion was the injected store failure may stay)
+		vAssert("C12/no-in-progress-marker-remains", w.delRefused[n])
 	}
 	vAssert("C20/everything-released", len(w.st.held) == 0)
 }
